@@ -21,7 +21,7 @@ structure Fix (α : Type) where
   y : α
   z : α
   t : α
-  deriving Repr
+  deriving Repr, DecidableEq
 
 /-- the reference argument of temporal resampling: a number of seconds, or a list of instants
 (`[ObsTime]`, or the timestamps of a reference track — both are mapped through `toAbsTime`). -/
